@@ -139,78 +139,9 @@ func runEvents(c *core.Ctx, sc *scratch, i int, ok *int) {
 		return
 	}
 	base := "/vcs/" + snapDir + "/" + imageName
-	evb, okE := vcs.files[base+".evts.pb"]
-	signed, okS := vcs.files[base+".signed"]
-	if !okE || !okS {
-		c.Oracle(i, entryEndorse, "snapshot-files-missing", gen, "wrote %v", fileNames(vcs.files))
+	evs, signed, digest, wantURI, wantVar, guids, okJ := judgeEmitted(c, i, gen, vcs, base, fw)
+	if !okJ {
 		return
-	}
-	evs, perr := splitEvents(evb)
-	if perr != nil {
-		c.Oracle(i, entryEndorse, "events-file-unparseable", gen, "%v", perr)
-		return
-	}
-	digest := sha512.Sum384(fw)
-	wantURI := bucketBase + "ovmf_x64_csm/" + lowerHex(digest[:]) + ".fd.signed"
-	wantVar := varLocator(parseGUID(googleVarGUID), firmwareRIMName)
-	if len(evs) != 2 {
-		c.Oracle(i, entryEndorse, "not-exactly-two-events", gen, "%d events", len(evs))
-		return
-	}
-	var nVar, nURI int
-	var guids [][16]byte
-	for k, eb := range evs {
-		mine, derr := decodeSP155(eb)
-		if derr != nil {
-			c.Oracle(i, entryEndorse, "event-does-not-parse", gen, "event %d: %v (%x)", k, derr, head(eb, 80))
-			return
-		}
-		if !bytes.Equal(mine.encode(), eb) {
-			c.Oracle(i, entryEndorse, "event-reencoding-differs(reference)", gen, "event %d", k)
-		}
-		// the repository's own decoder must read back exactly what was emitted
-		theirs := &rel.SP800155Event3{}
-		var uerr, merr error
-		var again []byte
-		c.Guard(i, "eventlog.SP800155Event3.UnmarshalFromBytes", gen, core.Budget{}, func() {
-			uerr = theirs.UnmarshalFromBytes(eb[16:])
-			if uerr == nil {
-				again, merr = theirs.MarshalToBytes()
-			}
-		})
-		if uerr != nil || merr != nil {
-			c.Oracle(i, entryEndorse, "emitted-event-not-accepted-by-decoder", gen, "event %d: unmarshal=%v marshal=%v", k, uerr, merr)
-			continue
-		}
-		if !bytes.Equal(again, eb) {
-			c.Oracle(i, entryEndorse, "event-reencoding-differs", gen, "event %d: emitted %x re-encoded %x", k, head(eb, 120), head(again, 120))
-		}
-		if theirs.RIMLocatorType != mine.LocType || !bytes.Equal(theirs.RIMLocator.Data, mine.Loc) || theirs.FirmwareManufacturerStr.Data != mine.FwMfrStr ||
-			theirs.PlatformManufacturerStr.Data != mine.PlatMfrStr || theirs.PlatformManufacturerID != mine.PlatMfrID || efiGUID(mine.RimGUID) != [16]byte(theirs.ReferenceManifestGUID.UUID) {
-			c.Oracle(i, entryEndorse, "decoders-disagree", gen, "event %d: reference %+v repository %+v", k, mine, theirs)
-		}
-		guids = append(guids, mine.RimGUID)
-		switch mine.LocType {
-		case locVariable:
-			nVar++
-			if !bytes.Equal(mine.Loc, wantVar) {
-				c.Oracle(i, entryEndorse, "variable-locator-wrong", gen, "got %x want %x", mine.Loc, wantVar)
-			}
-		case locURI:
-			nURI++
-			if string(mine.Loc) != wantURI {
-				c.Oracle(i, entryEndorse, "uri-locator-is-not-the-image-digest-url", gen, "got %q want %q", mine.Loc, wantURI)
-			}
-		default:
-			c.Oracle(i, entryEndorse, "unexpected-locator-type", gen, "event %d type %d", k, mine.LocType)
-		}
-	}
-	if nVar != 1 || nURI != 1 {
-		c.Oracle(i, entryEndorse, "not-one-variable-and-one-uri-locator", gen, "variable=%d uri=%d", nVar, nURI)
-		return
-	}
-	if guids[0] != guids[1] {
-		c.Oracle(i, entryEndorse, "manifest-guids-differ", gen, "%x vs %x", guids[0], guids[1])
 	}
 	// Feed the emitted events through a boot event log: the extractor must come back with the variable.
 	dir := filepath.Join(sc.dir, fmt.Sprintf("e%d", i))
@@ -284,6 +215,86 @@ func runEvents(c *core.Ctx, sc *scratch, i int, ok *int) {
 	c.Max("events/longest-log-bytes", int64(logLen))
 	c.Count("log-medium/"+medium.String(), 1)
 	c.Cell("events|size=%#x|order=%v|svn=%d|dir=%d|log>=%dKiB|on=%s", size, order, svn, strings.Count(snapDir+imageName, "/"), min(logLen>>12, 16)<<2, medium)
+}
+
+// judgeEmitted reads what a snapshot endorse run of image fw left under base in vcs and applies
+// the rules of part (b) to the emitted events; ok=false: nothing further can be judged.
+func judgeEmitted(c *core.Ctx, i int, gen string, vcs *memVCS, base string, fw []byte) (evs [][]byte, signed []byte, digest [48]byte, wantURI string, wantVar []byte, guids [][16]byte, ok bool) {
+	evb, okE := vcs.files[base+".evts.pb"]
+	var okS bool
+	signed, okS = vcs.files[base+".signed"]
+	if !okE || !okS {
+		c.Oracle(i, entryEndorse, "snapshot-files-missing", gen, "wrote %v", fileNames(vcs.files))
+		return
+	}
+	var perr error
+	evs, perr = splitEvents(evb)
+	if perr != nil {
+		c.Oracle(i, entryEndorse, "events-file-unparseable", gen, "%v", perr)
+		return
+	}
+	digest = sha512.Sum384(fw)
+	wantURI = bucketBase + "ovmf_x64_csm/" + lowerHex(digest[:]) + ".fd.signed"
+	wantVar = varLocator(parseGUID(googleVarGUID), firmwareRIMName)
+	if len(evs) != 2 {
+		c.Oracle(i, entryEndorse, "not-exactly-two-events", gen, "%d events", len(evs))
+		return
+	}
+	var nVar, nURI int
+	for k, eb := range evs {
+		mine, derr := decodeSP155(eb)
+		if derr != nil {
+			c.Oracle(i, entryEndorse, "event-does-not-parse", gen, "event %d: %v (%x)", k, derr, head(eb, 80))
+			return
+		}
+		if !bytes.Equal(mine.encode(), eb) {
+			c.Oracle(i, entryEndorse, "event-reencoding-differs(reference)", gen, "event %d", k)
+		}
+		// the repository's own decoder must read back exactly what was emitted
+		theirs := &rel.SP800155Event3{}
+		var uerr, merr error
+		var again []byte
+		c.Guard(i, "eventlog.SP800155Event3.UnmarshalFromBytes", gen, core.Budget{}, func() {
+			uerr = theirs.UnmarshalFromBytes(eb[16:])
+			if uerr == nil {
+				again, merr = theirs.MarshalToBytes()
+			}
+		})
+		if uerr != nil || merr != nil {
+			c.Oracle(i, entryEndorse, "emitted-event-not-accepted-by-decoder", gen, "event %d: unmarshal=%v marshal=%v", k, uerr, merr)
+			continue
+		}
+		if !bytes.Equal(again, eb) {
+			c.Oracle(i, entryEndorse, "event-reencoding-differs", gen, "event %d: emitted %x re-encoded %x", k, head(eb, 120), head(again, 120))
+		}
+		if theirs.RIMLocatorType != mine.LocType || !bytes.Equal(theirs.RIMLocator.Data, mine.Loc) || theirs.FirmwareManufacturerStr.Data != mine.FwMfrStr ||
+			theirs.PlatformManufacturerStr.Data != mine.PlatMfrStr || theirs.PlatformManufacturerID != mine.PlatMfrID || efiGUID(mine.RimGUID) != [16]byte(theirs.ReferenceManifestGUID.UUID) {
+			c.Oracle(i, entryEndorse, "decoders-disagree", gen, "event %d: reference %+v repository %+v", k, mine, theirs)
+		}
+		guids = append(guids, mine.RimGUID)
+		switch mine.LocType {
+		case locVariable:
+			nVar++
+			if !bytes.Equal(mine.Loc, wantVar) {
+				c.Oracle(i, entryEndorse, "variable-locator-wrong", gen, "got %x want %x", mine.Loc, wantVar)
+			}
+		case locURI:
+			nURI++
+			if string(mine.Loc) != wantURI {
+				c.Oracle(i, entryEndorse, "uri-locator-is-not-the-image-digest-url", gen, "got %q want %q", mine.Loc, wantURI)
+			}
+		default:
+			c.Oracle(i, entryEndorse, "unexpected-locator-type", gen, "event %d type %d", k, mine.LocType)
+		}
+	}
+	if nVar != 1 || nURI != 1 {
+		c.Oracle(i, entryEndorse, "not-one-variable-and-one-uri-locator", gen, "variable=%d uri=%d", nVar, nURI)
+		return
+	}
+	if guids[0] != guids[1] {
+		c.Oracle(i, entryEndorse, "manifest-guids-differ", gen, "%x vs %x", guids[0], guids[1])
+	}
+	return evs, signed, digest, wantURI, wantVar, guids, true
 }
 
 func fileNames(m map[string][]byte) []string {
